@@ -557,6 +557,15 @@ def specs(prop, tier):
             lst += [("M7", 6, dict(dt=0.125)), ("M8", 5, dict(dt=0.125))]
     else:
         lst = []
+    if prop in ("C01", "C02", "C04") or (prop == "C03" and not q):
+        # pseudo-random valid frameworks (gen.random_spec): structures nobody thought of
+        seeds = [14, 21, 29] if q else (gen.RANDOM_SEEDS if prop != "C03" else [5, 9, 12, 14, 21, 29])
+        for sd in seeds:
+            spec = gen.random_spec(sd)
+            has_j = any(c.get("junction") for c in spec["comps"])
+            if prop == "C04" and not has_j:
+                continue
+            lst.append(("R%d" % sd, 3, dict(junction_init=True) if has_j else {}))
     seen = set()
     for name, T, kw in lst:
         nm = "model[%s;T=%d%s]" % (name, T, "".join(";%s=%s" % (k, v) for k, v in sorted(kw.items())))
